@@ -6,12 +6,14 @@ package meta
 
 import (
 	"sync/atomic"
+	"unsafe"
 
 	"github.com/coregx/ahocorasick"
 	"github.com/coregx/coregex/dfa/lazy"
 	"github.com/coregx/coregex/dfa/onepass"
 	"github.com/coregx/coregex/nfa"
 	"github.com/coregx/coregex/prefilter"
+	"github.com/coregx/coregex/verifhook"
 )
 
 // Engine is the meta-engine that orchestrates all regex execution strategies.
@@ -260,10 +262,22 @@ func (e *Engine) SetLongest(longest bool) {
 // The returned state contains its own PikeVM instance for thread-safe concurrent use.
 func (e *Engine) getSearchState() *SearchState {
 	// Fast path: grab from local cache (survives GC, zero-alloc steady state).
+	if verifhook.On {
+		verifhook.Gate("pool.swap", uintptr(unsafe.Pointer(e)))
+	}
 	state := e.localState.Swap(nil)
+	if verifhook.On {
+		verifhook.Emit("pool.swap", int(uintptr(unsafe.Pointer(state))))
+	}
 	if state == nil {
 		// Slow path: concurrent access or first call before eager init.
+		if verifhook.On {
+			verifhook.Gate("pool.get", uintptr(unsafe.Pointer(e)))
+		}
 		state = e.statePool.get()
+		if verifhook.On {
+			verifhook.Emit("pool.get", int(uintptr(unsafe.Pointer(state))))
+		}
 	}
 
 	// Initialize state for BoundedBacktracker if needed
@@ -288,9 +302,22 @@ func (e *Engine) putSearchState(state *SearchState) {
 	}
 	state.reset()
 	// Try to store in local cache (GC-proof single slot).
+	if verifhook.On {
+		verifhook.Gate("pool.cas", uintptr(unsafe.Pointer(e)))
+	}
 	if e.localState.CompareAndSwap(nil, state) {
+		if verifhook.On {
+			verifhook.Emit("pool.cas", int(uintptr(unsafe.Pointer(state))), 1)
+		}
 		return
+	}
+	if verifhook.On {
+		verifhook.Emit("pool.cas", int(uintptr(unsafe.Pointer(state))), 0)
+		verifhook.Gate("pool.put", uintptr(unsafe.Pointer(e)))
 	}
 	// Local slot occupied (concurrent goroutine), fall back to pool.
 	e.statePool.put(state)
+	if verifhook.On {
+		verifhook.Emit("pool.put", int(uintptr(unsafe.Pointer(state))))
+	}
 }
